@@ -123,6 +123,10 @@ impl SnmpInt {
     pub fn is_zero(&self) -> bool {
         self.0 == 0
     }
+    #[cfg(gufo_snmp_verif)]
+    pub fn verif_value(&self) -> i64 {
+        self.0
+    }
 }
 
 impl<'py> IntoPyObject<'py> for &SnmpInt {
